@@ -117,4 +117,184 @@ theorem seed_stable (hw : EpochWrites cfg N st st') (e : Nat) (d : Bytes) (he : 
       (b := N + 1 + cfg.EPOCHS_PER_HISTORICAL_VECTOR) (V := cfg.EPOCHS_PER_HISTORICAL_VECTOR) (by omega) (by omega)
     rwa [Nat.add_mod_right] at h
 
+/-! ### decomposition of `ctxOf`, congruence, and the rotation step -/
+
+section Rotate
+variable {c : Ctx}
+
+theorem ctxOf_ok (h : ctxOf cfg st = .ok c) :
+    shufflingOf cfg st (get_current_epoch cfg st) = .ok c.cur ∧
+    shufflingOf cfg st (get_previous_epoch cfg st) = .ok c.prev ∧
+    shufflingOf cfg st (get_current_epoch cfg st + 1) = .ok c.next ∧
+    proposersOf cfg st (get_current_epoch cfg st) c.cur.active = .ok c.proposers ∧
+    syncOfOpt st.validators st.current_sync_committee = .ok c.syncCurrent ∧
+    syncOfOpt st.validators st.next_sync_committee = .ok c.syncNext ∧
+    c.effBalances = st.validators.map (·.effective_balance) ∧
+    c.totalActiveStake = totalActiveStakeOf cfg st (get_current_epoch cfg st) ∧
+    c.totalActiveStakeSqrt = integer_squareroot (totalActiveStakeOf cfg st (get_current_epoch cfg st)) ∧
+    c.pubkeys = st.validators.map (·.pubkey) := by
+  unfold ctxOf at h
+  simp only [bind, Except.bind, pure, Except.pure] at h
+  split at h
+  · cases h
+  · rename_i cur hcur
+    split at h
+    · cases h
+    · rename_i prev hprev
+      split at h
+      · cases h
+      · rename_i next hnext
+        split at h
+        · cases h
+        · rename_i props hprops
+          split at h
+          · cases h
+          · rename_i sc hsc
+            split at h
+            · cases h
+            · rename_i sn hsn
+              cases h
+              exact ⟨hcur, hprev, hnext, hprops, hsc, hsn, rfl, rfl, rfl, rfl⟩
+
+theorem shufflingOfParts_fields {e : Nat} {a : List Nat} {seed : Bytes} {s : ShufflingEpoch}
+    (h : shufflingOfParts cfg e a seed = .ok s) : s.epoch = e ∧ s.active = a := by
+  unfold shufflingOfParts at h
+  simp only [bind, Except.bind, pure, Except.pure] at h
+  split at h
+  · cases h
+  · split at h
+    · cases h
+    · cases h; exact ⟨rfl, rfl⟩
+
+theorem shufflingOf_fields {e : Nat} {s : ShufflingEpoch} (h : shufflingOf cfg st e = .ok s) :
+    s.epoch = e ∧ s.active = get_active_validator_indices st e := by
+  unfold shufflingOf at h
+  simp only [bind, Except.bind] at h
+  split at h
+  · cases h
+  · exact shufflingOfParts_fields h
+
+theorem indexOfPubkey_map (vs : List Validator) (pk : Bytes) :
+    indexOfPubkey vs pk = (vs.map (·.pubkey)).findIdx? (fun q => decide (q = pk)) := by
+  unfold indexOfPubkey
+  rw [List.findIdx?_map]
+  rfl
+
+/-- the indexed sync committee depends on the registry only through its list of pubkeys -/
+theorem syncOfOpt_congr {vs vs' : List Validator} (h : vs'.map (·.pubkey) = vs.map (·.pubkey)) (sc : Option SyncCommittee) :
+    syncOfOpt vs' sc = syncOfOpt vs sc := by
+  cases sc with
+  | none => rfl
+  | some sc =>
+    simp only [syncOfOpt, syncOf]
+    have : memberIndex vs' = memberIndex vs := by
+      funext pk; unfold memberIndex; rw [indexOfPubkey_map, indexOfPubkey_map, h]
+    rw [this]
+
+/-- what the epoch transition at the end of epoch `N` does to the state's sync committees
+(`process_sync_committee_updates`): at a period boundary the next committee becomes the current one (and a new
+next one is computed), otherwise both stay. Before altair there are none. -/
+structure SyncStep (cfg : Config) (N : Nat) (st st' : State) : Prop where
+  boundary : st'.fork ≥ Fork.altair → (N + 1) % cfg.EPOCHS_PER_SYNC_COMMITTEE_PERIOD = 0 →
+    st'.current_sync_committee = st.next_sync_committee
+  inside : ¬ (st'.fork ≥ Fork.altair ∧ (N + 1) % cfg.EPOCHS_PER_SYNC_COMMITTEE_PERIOD = 0) →
+    st'.current_sync_committee = st.current_sync_committee ∧ st'.next_sync_committee = st.next_sync_committee
+
+theorem rotate_eq_ctxOf_aux {N : Nat}
+    (hc : ctxOf cfg st = .ok c)
+    (hN : get_current_epoch cfg st = N) (hN' : get_current_epoch cfg st' = N + 1)
+    (hprev : shufflingOf cfg st' N = shufflingOf cfg st N)
+    (hcur : shufflingOf cfg st' (N + 1) = shufflingOf cfg st (N + 1))
+    (hreg : st'.validators.map (·.pubkey) = st.validators.map (·.pubkey))
+    (hsync : SyncStep cfg N st st') :
+    rotate cfg c st' = ctxOf cfg st' := by
+  obtain ⟨h1, _, h3, _, h5, h6, _, _, _, h10⟩ := ctxOf_ok hc
+  rw [hN] at h1 h3
+  obtain ⟨hne, hna⟩ := shufflingOf_fields h3
+  have hprevEpoch : get_previous_epoch cfg st' = N := by
+    unfold get_previous_epoch; rw [hN']; simp [GENESIS_EPOCH]
+  unfold rotate ctxOf
+  rw [hN', hprevEpoch]
+  dsimp only
+  rw [hcur, h3, hprev, h1, hne]
+  simp only [bind, Except.bind, pure, Except.pure]
+  cases hnext : shufflingOf cfg st' (N + 1 + 1) with
+  | error e => rfl
+  | ok next =>
+    simp only []
+    cases hprop : proposersOf cfg st' (N + 1) c.next.active with
+    | error e => rfl
+    | ok props =>
+      simp only []
+      have hsc := syncOfOpt_congr hreg
+      simp only [hsc]
+      by_cases hb : st'.fork ≥ Fork.altair ∧ (N + 1) % cfg.EPOCHS_PER_SYNC_COMMITTEE_PERIOD = 0
+      · rw [if_pos hb]
+        have hcurSync := hsync.boundary hb.1 hb.2
+        rw [hcurSync, h6]
+        cases hsn : c.syncNext with
+        | none =>
+          simp only []
+          cases hn2 : syncOfOpt st.validators st'.next_sync_committee with
+          | error e => rfl
+          | ok sn => simp [h10, hreg]
+        | some sn0 =>
+          simp only []
+          cases hn2 : syncOfOpt st.validators st'.next_sync_committee with
+          | error e => rfl
+          | ok sn => simp [h10, hreg]
+      · rw [if_neg hb]
+        obtain ⟨e1, e2⟩ := hsync.inside hb
+        rw [e1, e2, h5, h6]
+        simp [h10, hreg]
+
+/-- the context reads the state only through its slot, registry, randao mixes and sync committees -/
+theorem ctxOf_congr {st st' : State} (hslot : st'.slot = st.slot) (hv : st'.validators = st.validators)
+    (hm : st'.randao_mixes = st.randao_mixes) (hsc : st'.current_sync_committee = st.current_sync_committee)
+    (hsn : st'.next_sync_committee = st.next_sync_committee) : ctxOf cfg st' = ctxOf cfg st := by
+  have hseed : ∀ e d, get_seed cfg st' e d = get_seed cfg st e d := by
+    intro e d; unfold get_seed get_randao_mix; rw [hm]
+  have hact : ∀ e, get_active_validator_indices st' e = get_active_validator_indices st e := by
+    intro e; unfold get_active_validator_indices; rw [hv]
+  have hsh : ∀ e, shufflingOf cfg st' e = shufflingOf cfg st e := by
+    intro e; unfold shufflingOf; rw [hseed, hact]
+  have hpr : ∀ e a, proposersOf cfg st' e a = proposersOf cfg st e a := by
+    intro e a; unfold proposersOf; rw [hseed, hv]
+  have htot : ∀ e, totalActiveStakeOf cfg st' e = totalActiveStakeOf cfg st e := by
+    intro e; unfold totalActiveStakeOf; rw [hact, hv]
+  unfold ctxOf get_current_epoch get_previous_epoch get_current_epoch
+  simp only [hsh, hpr, htot, hslot, hv, hsc, hsn]
+
+end Rotate
+
+/-- replacing the state's sync committees only changes the sync part of its context -/
+theorem ctxOf_with_sync {cfg : Config} {pre : State} {c : Ctx} (hc : ctxOf cfg pre = .ok c)
+    (a b : Option SyncCommittee) :
+    ctxOf cfg { pre with current_sync_committee := a, next_sync_committee := b } =
+      (do
+        let sc ← syncOfOpt pre.validators a
+        let sn ← syncOfOpt pre.validators b
+        pure { c with syncCurrent := sc, syncNext := sn }) := by
+  obtain ⟨h1, h2, h3, h4, _, _, h7, h8, h9, h10⟩ := ctxOf_ok hc
+  have e1 : ∀ e, shufflingOf cfg { pre with current_sync_committee := a, next_sync_committee := b } e = shufflingOf cfg pre e :=
+    fun _ => rfl
+  have e2 : ∀ e l, proposersOf cfg { pre with current_sync_committee := a, next_sync_committee := b } e l = proposersOf cfg pre e l :=
+    fun _ _ => rfl
+  have e3 : get_current_epoch cfg { pre with current_sync_committee := a, next_sync_committee := b } = get_current_epoch cfg pre := rfl
+  have e4 : get_previous_epoch cfg { pre with current_sync_committee := a, next_sync_committee := b } = get_previous_epoch cfg pre := rfl
+  have e5 : ∀ e, totalActiveStakeOf cfg { pre with current_sync_committee := a, next_sync_committee := b } e = totalActiveStakeOf cfg pre e :=
+    fun _ => rfl
+  unfold ctxOf
+  simp only [e1, e2, e3, e4, e5, h1, h2, h3, h4, bind, Except.bind, pure, Except.pure]
+  cases syncOfOpt pre.validators a with
+  | error e => rfl
+  | ok sc =>
+    cases syncOfOpt pre.validators b with
+    | error e => rfl
+    | ok sn =>
+      simp only []
+      congr 1
+      cases c
+      simp_all
+
 end Zrnt.Proofs.Ctx
